@@ -135,12 +135,13 @@ def biased_tables(draw):
 
 def plan(tier, seed):
     return tablecheck.plan(tier, seed, quick_cells=12, thorough_cells=16, thorough_shapes=(), thorough_multisets=(),
-                           hyp_quick=(12, 300), hyp_thorough=(16, 3000), profiles=('small', 'biased', 'medium'))
+                           hyp_quick=(12, 300), hyp_thorough=(16, 3000), profiles=('small', 'biased', 'medium'), wide=True)
 
 
 def run(task, ctx):
     tablecheck.run(task, ctx, check_one,
-                   strategy_of=lambda t: biased_tables() if t['profile'] == 'biased' else gen.tables(t['profile']))
+                   strategy_of=lambda t: biased_tables() if t['profile'] == 'biased' else
+                   gen.wide_tables() if t['profile'] == 'wide' else gen.tables(t['profile']))
 
 
 def replay(case, ctx):
